@@ -26,6 +26,10 @@ META = dict(
 )
 
 SETS = {"A": [(1, 9), (1, 10)], "B": [(1, 10), (2, 9)], "C": [(2, 10), (1, 9), (2, 9), (1, 10)]}  # C: accessory ids interleaved, as a caller (or a set) may pass them
+# Z / Y: a bridge's worth of characteristics - the requests that carry them (and the re-subscription after a reconnect) do not fit one 1024-byte block
+SETS["Z"] = [(1, 100 + i) for i in range(45)]
+SETS["Y"] = [(2 + i // 20, 100 + i) for i in range(40)]
+ALPH_BIG = ["sub:Z", "sub:Y", "sub:A", "unsub:A", "unsub:Z", "drop", "ev1"]
 ALPH_SUBS = ["sub:A", "sub:B", "sub:C", "unsub:A", "unsub:B", "drop", "arm-cut", "ev1", "L2+"]
 ALPH_OFFLINE = ["sub:A", "sub:C", "unsub:A", "offline", "online", "drop", "ev1"]
 ALPH_EVENTS = ["L2+", "L2-", "R+", "ev1", "ev2", "ev-split", "ev-split-stall", "ev-empty", "ev-nonjson", "drop", "sub:A"]
@@ -564,7 +568,13 @@ def case_ble_subs(p):
         h.close()
 
 
-CASES = {"coap_subs": case_coap_subs, "ble_subs": case_ble_subs, "explore": case_explore, "event_splits": case_event_splits, "coap_events": case_coap_events}
+def case_conn(p):
+    from vt.props import c18_conn
+
+    return [(s_, d) for s_, d in c18_conn.case_conn(p) if "repeated-broadcast" in s_]
+
+
+CASES = {"conn": case_conn, "coap_subs": case_coap_subs, "ble_subs": case_ble_subs, "explore": case_explore, "event_splits": case_event_splits, "coap_events": case_coap_events}
 
 
 def _work_coap(item, seed, tier):
@@ -611,6 +621,23 @@ def _work(item, seed, tier):
     return acc
 
 
+def _work_bcast(item, seed, tier):
+    """events that reach a disconnected BLE pairing as encrypted broadcasts (the connected-session harness of C18): an advertisement is repeated
+    many times, the event it reports is delivered once.  Only that rule is judged here; what a broadcast may be accepted at all is C18's."""
+    from vt.props import c18_conn
+
+    acc = core.Acc()
+    p, root, depth = item
+    sub = core.Acc()
+    explore.explore(lambda: c18_conn.ConnH(p), sub, depth=depth, case="conn", params=p, root=root, prune=True, finish=True)
+    sub.viol = [v for v in sub.viol if "repeated-broadcast" in v["signature"]]
+    for k in list(sub.viol_count):
+        if "repeated-broadcast" not in k:
+            del sub.viol_count[k]
+    acc.merge(sub)
+    return acc
+
+
 def _work_ble(item, seed, tier):
     from vt.props.c12_ble import BleSubH
 
@@ -641,6 +668,13 @@ def run(ctx):
     ctx.bounds.update(ble_configs=[dict(alphabet=c.get("alphabet", c12_ble.ALPH), prelude=c.get("prelude", []), depth=d) for c, d in ble_configs])
     for s_ in ("burst", "storm", "fail-start", "change", "use"):
         ctx.require(ctx.acc.symbols[s_] > 0, f"BLE symbol {s_} never taken")
+    from vt.props import c18_conn
+
+    bp = dict(base=300, ev_flags=(9, 10), alphabet=["sub", "timer", "drop", "bcast:+1", "bcast:same", "regular-adv", "use"], seed=ctx.seed)
+    bd = 6 if quick else 8
+    ctx.pmap(_work_bcast, [(bp, r, bd) for r in explore.roots(lambda: c18_conn.ConnH(bp), 2)])
+    ctx.bounds.update(ble_broadcast_copies=dict(alphabet=bp["alphabet"], depth=bd))
+    ctx.require(ctx.acc.symbols["bcast"] > 0, "a broadcast was never delivered")
     configs = [
         (dict(alphabet=ALPH_SUBS, max_drops=2), 5 if quick else 7),
         (dict(alphabet=ALPH_EVENTS, max_drops=1, raiser="partial"), 4 if quick else 6),
@@ -654,6 +688,7 @@ def run(ctx):
         (dict(alphabet=["sub:B", "sub:C", "unsub:B", "drop", "offline", "online"], max_drops=2, refuse=[(1, 10)]), 4 if quick else 5),
     ]
     configs.append((dict(alphabet=ALPH_SELF, max_drops=1), 4 if quick else 5))
+    configs.append((dict(alphabet=ALPH_BIG, max_drops=2), 4 if quick else 5))
     work = []
     for p, d in configs:
         p = dict(p, seed=ctx.seed)
